@@ -3208,6 +3208,17 @@ class Choice(Set):
         self._currentIdx = None
         return Set.reset(self)
 
+    @property
+    def minTagSet(self):
+        """The smallest tag this CHOICE can be encoded under.
+
+        Used for the canonical ordering of SET components (X.690 9.3).
+        """
+        if self.tagSet:
+            return self.tagSet
+
+        return self.componentType.minTagSet
+
     # compatibility stubs
 
     def getMinTagSet(self):
